@@ -33,7 +33,7 @@ r = subprocess.run([os.path.join(V, "tools", "confirm_seed.sh"), dst, pkg, run] 
                    capture_output=True, text=True, env=env)
 line = next((l for l in r.stdout.splitlines() if l.startswith("CONFIRM")), r.stdout[-300:] + r.stderr[-300:])
 title = re.sub(r"\s+", " ", notes.strip())[:600]
-meta = {"property": pid, "round": 2, "needs_to_manifest": title,
+meta = {"property": pid, "round": int(os.environ.get("SEEDROUND", "2")), "needs_to_manifest": title,
         "demo": {"file": "demo_test.go", "copy_into": "teamserver/" + pkg,
                  "run": f"go test {tags} -vet=off -count=1 -run '{run}' ./{pkg}/".replace("  ", " ")},
         "confirmed": {"how": f"SEEDTAGS='{tags}' tools/confirm_seed.sh {dst} {pkg} '{run}' {yaotl}".strip(), "result": line}}
